@@ -673,6 +673,40 @@ class Sim(object):
                 k.faults.append((op[1], op[2], op[3]))
             elif kind == "sockev":
                 self.sock_ready = bool(op[1])      # a connection is waiting on a managed socket (select reports it)
+            elif kind == "poke":
+                # unit-level probe: force a watcher's status (possibly an unreachable state)
+                w = self.arb._watchers_names.get(op[1].lower())
+                if w is None:
+                    k.out("o raised NoWatcher")
+                else:
+                    w._status = op[2]
+                return                              # no loop run: nothing was scheduled
+            elif kind == "call":
+                # unit-level probe: call one watcher method directly (coroutines get an exception watch)
+                w = self.arb._watchers_names.get(op[1].lower())
+                if w is None:
+                    k.out("o raised NoWatcher")
+                else:
+                    fn = op[2]
+                    try:
+                        if fn == "manage":
+                            self._watch(w.manage_processes())
+                        elif fn == "start":
+                            self._watch(w._start())
+                        elif fn == "stop":
+                            self._watch(w._stop())
+                        elif fn == "spawns":
+                            self._watch(w.spawn_processes())
+                        elif fn == "kills":
+                            self._watch(w.kill_processes())
+                        elif fn == "reaps":
+                            w.reap_processes()
+                        elif fn == "spawn1":
+                            w.spawn_process()
+                    except Blocked:
+                        raise
+                    except Exception as e:          # a synchronous method raised: the loop would log it
+                        k.out("o raised %s" % type(e).__name__)
             else:
                 raise ValueError("unknown op %r" % (op,))
             self.settle()
